@@ -60,13 +60,22 @@ func init() {
 			if tier == "thorough" {
 				ns, lens = rng(1, 125), append(rng(1, 16), 100, 250, 255)
 			}
-			return regJobs("VH_C13_accessor_pure", ns, lens)
+			js := regJobs("VH_C13_accessor_pure", ns, lens)
+			for _, class := range []int{0, 1, 2, 3, 5, 7, 8, 9} {
+				for _, sl := range []int{3, 4} {
+					if class != 3 && sl != 3 {
+						continue
+					}
+					js = append(js, sym.Job{Harness: "VH_C13_extract_pure", Params: map[string]int{"class": class, "strlen": sl}})
+				}
+			}
+			return js
 		},
 		Bounds: map[string]string{
-			"quick":    "one call (and its repetition) of each of the 23 accessors from an arbitrary payload/Registers state; n in {1,2,4,125}; string lengths {1,2,3,4,7,250}; all arguments symbolic",
+			"quick":    "one call (and its repetition) of each of the 23 accessors from an arbitrary payload/Registers state; one Field.ExtractFrom (8 field classes, byte order symbolic) followed by default-order probes and a repetition; n in {1,2,4,125}; string lengths {1,2,3,4,7,250}; all arguments symbolic",
 			"thorough": "n in 1..125; string lengths {1..16,100,250,255}",
 		},
-		Outside:   []string{"sequences are covered by induction on the unchanged-state step, not enumerated", "ExtractFields over builder fields (see C05)"},
-		MinCovers: []string{"called"},
+		Outside:   []string{"sequences are covered by induction on the unchanged-state step, not enumerated", "ExtractFields over several fields of one response is exercised in C05 (its expected values come from fresh views, so a mutation of the shared view shows there as a wrong value)"},
+		MinCovers: []string{"called", "extracted"},
 	})
 }
